@@ -39,7 +39,7 @@ PROPS = {
     "C14": dict(quick_checks=3000, thorough_checks=20000, race_thorough=True, enum=True),
     "C15": dict(quick_checks=2500, thorough_checks=15000, race_thorough=True),
     "C16": dict(level="fault_enumeration", quick_checks=1500, thorough_checks=10000, enum=True),
-    "C17": dict(quick_checks=2500, thorough_checks=12000),
+    "C17": dict(quick_checks=2500, thorough_checks=12000, enum=True),
     "C18": dict(quick_checks=3000, thorough_checks=20000, enum=True),
     "C19": dict(quick_checks=300, quick_shards=4, thorough_checks=3000, thorough_shards=8, thorough_rounds=10, race=True, hang_s=60, enum=True),
     "C20": dict(quick_checks=2500, thorough_checks=15000),
@@ -353,16 +353,9 @@ def run_check(pid, tier, seed, budget_s):
                 p = subprocess.Popen([main_binary] + args, cwd=work, env=env, stdout=lf, stderr=subprocess.STDOUT, preexec_fn=os.setsid)
                 procs.append((p, env, logf, lf, tag, args))
             deadline = time.time() + max(budget_s * 2, 1800)
+            rcs = wait_shards(procs, deadline)
             for p, env, logf, lf, tag, args in procs:
-                try:
-                    rc = p.wait(timeout=max(1, deadline - time.time()))
-                except subprocess.TimeoutExpired:
-                    try:
-                        os.killpg(p.pid, signal.SIGKILL)
-                    except ProcessLookupError:
-                        pass
-                    p.wait()
-                    rc = "timeout"
+                rc = rcs[p.pid]
                 lf.close()
                 stat_files.append(env["VERIF_STATS"])
                 handle_rc(pid, rc, env, logf, main_binary, work, tier, seed, excludes, hang_s, violations, notes, tag, args)
@@ -450,12 +443,62 @@ def run_check(pid, tier, seed, budget_s):
             shutil.rmtree(work, ignore_errors=True)
 
 
+SHRINK_GRACE_S = 60
+
+
+def wait_shards(procs, deadline):
+    """Waits for all workers. A worker that has already left a failing case behind gets
+    SHRINK_GRACE_S more seconds for shrinking (rapid prunes its recorded draws with a
+    quadratic pass BEFORE its own shrink deadline applies: a failing case with many
+    discarded draws can keep it busy for a quarter of an hour); then it is stopped and
+    the smallest failing case written so far is used (status "shrink-timeout")."""
+    rcs, seen = {}, {}
+    while len(rcs) < len(procs):
+        now = time.time()
+        for p, env, logf, lf, tag, args in procs:
+            if p.pid in rcs:
+                continue
+            rc = p.poll()
+            if rc is not None:
+                rcs[p.pid] = rc
+                continue
+            fail = env.get("VERIF_FAILCASE")
+            if fail and os.path.exists(fail):
+                seen.setdefault(p.pid, now)
+            why = None
+            # once another worker has delivered a shrunk violation, 10 s are enough
+            grace = 10 if any(r == 1 for r in rcs.values()) else SHRINK_GRACE_S
+            if p.pid in seen and now - seen[p.pid] > grace:
+                why = "shrink-timeout"
+            elif now > deadline:
+                why = "timeout"
+            if why:
+                try:
+                    os.killpg(p.pid, signal.SIGKILL)
+                except ProcessLookupError:
+                    pass
+                p.wait()
+                rcs[p.pid] = why
+        time.sleep(0.2)
+    return rcs
+
+
 def handle_rc(pid, rc, env, logf, binary, work, tier, seed, excludes, hang_s, violations, notes, tag, args=None):
     """Interprets the exit status of one worker."""
     if rc == 0:
         return
     fail = env["VERIF_FAILCASE"]
     curf = env["VERIF_CURCASE"]
+    if rc == "shrink-timeout" and fail and os.path.exists(fail):
+        # the case file is rewritten by every failing execution: what is there is the
+        # smallest failing case seen so far; confirm it by a plain replay
+        res = replay_files(binary, pid, work, [fail], tier, seed, excludes, max(60, hang_s * 3), "confirm." + tag)
+        if res and not res[0]["ok"]:
+            dst, msg = save_violation(pid, fail, res[0]["msg"] + f" (shrinking stopped after {SHRINK_GRACE_S}s: not minimal)")
+            violations.append((dst, msg + "\n" + tail(logf, 12)))
+            return
+        notes.append(f"{tag}: a failing case was written but does not fail when replayed alone after shrinking was stopped — inconclusive, not a verdict")
+        return
     if rc == 1 and fail and os.path.exists(fail):
         dst, msg = save_violation(pid, fail)
         violations.append((dst, msg + "\n" + tail(logf, 12)))
